@@ -91,7 +91,7 @@ Definition enforce (k : fkind) (t : tref) (nil : bool) : outcome :=
 Definition is_ptr (g : gotype) : bool := match g with GPtr _ _ => true | _ => false end.
 
 (** A Go type can hold nil and render it as null: a pointer that is itself neither an enum nor a scalar. *)
-Definition admits_nil (g : gotype) : bool :=
+Definition can_be_nil (g : gotype) : bool :=
   is_ptr g && match g_enum (facts g), g_scalar (facts g) with None, None => true | _, _ => false end.
 
 Fixpoint entries_nonnull (t : tref) : bool :=
